@@ -56,7 +56,10 @@ def shard(i: int, n: int, tier: str, seed: int) -> Result:
     res = Result(PROP, tier, seed)
     rng = random.Random(seed * 611953 + i)
     total = 6000 if tier == "quick" else 60000
-    prof = prog.profile(mutate_via_alias_prob=0.4, w_tuplelist=1.2, const_list_prob=0.3, return_in_arm_prob=0.2, w_copy=3, w_const=3, w_assign=5, w_alias=1.5, w_index_assign=2.5, w_if=3, w_for=3, w_with=3.5,
+    XOPS = ('cbrt', 'roundint', 'nearbyint', 'fabs', 'copysign', 'fdim', 'fmod', 'remainder', 'hypot', 'fmin', 'fmax', 'mod', 'powop', 'pow',
+            'nan', 'inf', 'round_exact', 'fst', 'snd', 'logb', 'round_at')
+    prof = prog.profile(extra_ops=XOPS, extra_prob=0.12, preds=('isnan', 'isinf', 'isfinite', 'signbit', 'isnormal'), pred_prob=0.12,
+                        mutate_via_alias_prob=0.4, w_tuplelist=1.2, const_list_prob=0.3, return_in_arm_prob=0.2, w_copy=3, w_const=3, w_assign=5, w_alias=1.5, w_index_assign=2.5, w_if=3, w_for=3, w_with=3.5,
                         args=lambda r: r.choice([('R', 'R', 'L'), ('R', 'L'), ('R', 'R'), ('R', 'B', 'L'), ('L', 'L', 'R'), ('R', 'I', 'L'), ('I', 'R', 'R')]))
     run_differential(res, PROP, rng, total // n, prof, transforms, ninputs=6,
                      ctx_choices=(None, None, fp.FP32, fp.MPFloatContext(4)), tag='c07')
